@@ -78,7 +78,38 @@ fn tables() {
     }
     let w: Vec<String> = width_ranges.iter().map(|(a, b, c)| format!("[{},{},{}]", a, b, c)).collect();
     let c: Vec<String> = comb_ranges.iter().map(|(a, b)| format!("[{},{}]", a, b)).collect();
-    println!("{{\"width\":[{}],\"combining\":[{}]}}", w.join(","), c.join(","));
+    // std's Unicode character classes (so that the engine can decide a predicate the crate might call)
+    let classes: Vec<(&str, fn(char) -> bool)> = vec![
+        ("is_numeric", |c| c.is_numeric()),
+        ("is_alphabetic", |c| c.is_alphabetic()),
+        ("is_alphanumeric", |c| c.is_alphanumeric()),
+        ("is_whitespace", |c| c.is_whitespace()),
+        ("is_uppercase", |c| c.is_uppercase()),
+        ("is_lowercase", |c| c.is_lowercase()),
+    ];
+    let mut cls: Vec<String> = Vec::new();
+    for (name, f) in classes {
+        let mut rs: Vec<String> = Vec::new();
+        let mut start: Option<u32> = None;
+        let mut prev: u32 = 0;
+        for cp in 0u32..=0x10FFFF {
+            let on = char::from_u32(cp).map(|ch| f(ch)).unwrap_or(false);
+            match (start, on) {
+                (None, true) => start = Some(cp),
+                (Some(st), false) => {
+                    rs.push(format!("[{},{}]", st, prev));
+                    start = None;
+                }
+                _ => {}
+            }
+            prev = cp;
+        }
+        if let Some(st) = start {
+            rs.push(format!("[{},{}]", st, prev));
+        }
+        cls.push(format!("\"{}\":[{}]", name, rs.join(",")));
+    }
+    println!("{{\"width\":[{}],\"combining\":[{}],\"classes\":{{{}}}}}", w.join(","), c.join(","), cls.join(","));
 }
 
 /// One JSON array of bytes per line in; the code points encoding_rs's one-shot
@@ -346,7 +377,7 @@ fn apply_state(s: &mut Screen, st: &Value) {
     if let Some(v) = st.get("charset") { s.charset = if v.as_u64().unwrap() == 0 { Charset::G0 } else { Charset::G1 }; }
     if let Some(v) = st.get("g0") { s.g0_charset = charset_from(v); }
     if let Some(v) = st.get("g1") { s.g1_charset = charset_from(v); }
-    if let Some(v) = st.get("saved_columns") { s.saved_columns = if v.is_null() { None } else { Some(v.as_u64().unwrap() as u32) }; }
+    if let Some(v) = st.get("saved_columns") { s.saved_columns = if v.is_null() { None } else { Some(v.as_u64().unwrap() as _) }; }
     if let Some(v) = st.get("savepoints") {
         s.savepoints = v.as_array().unwrap().iter().map(|p| Savepoint {
             cursor: cursor_from(&p["cursor"]),
